@@ -356,6 +356,20 @@ CLAIMED["C23"] = (
     "DESIGN.md section 6 C23",
 )
 
+CLAIMED["C22"] = (
+    "extract_subgrid is executed on Cartesian and structured-triangle grids with 1-2 SYMBOLIC node displacements for "
+    "enumerated cell subsets (connected or not, sorted or unsorted). For all displacements: the copied geometry is "
+    "the parent's on the selected cells / faces, the geometry RECOMPUTED by compute_geometry on the extracted "
+    "topology and symbolic nodes equals the parent's (volumes, centres, face areas, face centres, normals), node "
+    "coordinates are the parent's; the face and node maps point to exactly the parent faces (with signs) and nodes "
+    "(in order) of each selected cell.",
+    "Extraction clause only (cells): the partitioners and overlap work on concrete integer arrays (enumeration, "
+    "nothing for a solver), extraction from faces and 3-d grids are outside; 2x2 grids, cell subsets sampled in the "
+    "quick tier.",
+    "symbolic execution of the real Python source over real terms + SMT (z3), case split on cell subsets",
+    "DESIGN.md section 6 C22",
+)
+
 CLAIMED["C27"] = (
     "SubdomainProjections (cell and face restriction / prolongation), MortarProjections (all eight maps and the "
     "side-sign matrix) and BoundaryProjection are built by the real code for ordered lists (all orders and sub-"
@@ -406,7 +420,6 @@ NOT_APPLICABLE = {
     "C16": "TPSA assembly runs on scipy sparse-array kernels and its second clause needs spsolve of the full system; not encodable within reach.",
     "C18": "RT0/MVEM exactness needs the saddle-point solve (spsolve); SPD-ness for symbolic geometry is a quantified nonlinear inequality on top of einsum/linalg kernels.",
     "C20": "Rigid-motion equivariance needs a symbolic rotation applied to symbolic nodes and the plane-fitting path (compute_normal, project_plane_matrix): towers of nested square roots and arccos-based rotations that z3 did not decide within minutes per obligation (DESIGN.md 10.5); the un-rotated geometry identities are covered by C19.",
-    "C22": "Extraction / partitioning is index bookkeeping on concrete topology (np.unique, sparse slicing); the only symbolic part (recomputed geometry of the extracted cells) repeats C19 on a sub-topology. Check not built.",
     "C30": "Distances are square roots compared with each other across case splits (closest feature selection); the nested-root queries were not decided by z3 in time and interval branch-and-bound cannot prove equalities (DESIGN.md 10.5).",
     "C32": "rotation_matrix / project_plane_matrix / compute_normal / 3-d TangentialNormalProjection on symbolic directions produce towers of 3-4 nested square roots; z3 needed minutes per orthogonality obligation or did not return (harness pv/props/c32.py kept, unregistered; DESIGN.md 10.5).",
     "C21": "Quantifies over grid topologies only; all inputs are concrete index arrays processed by compiled scipy kernels - nothing for a solver to decide.",
